@@ -44,16 +44,17 @@ RoundF(v, m, r) ==
 RECURSIVE RoundsF(_, _, _)
 RoundsF(v, m, r) == IF r = 10 THEN v ELSE RoundsF(RoundF(v, m, r), m, r + 1)
 
-\* compression F(h, block, t, last): t is the byte counter (small integer)
-F(h, block, t, last) ==
+\* compression FX(h, block, tt, last): tt is the 64-bit byte counter (a BigNat); F takes it as a small integer
+FX(h, block, tt, last) ==
     LET m  == Tup([i \in 1..16 |-> FromBytesLE(SubSeq(block, 4 * (i - 1) + 1, 4 * i))])
-        tt == FromInt(t)
         v0 == Tup([i \in 1..16 |-> IF i <= 8 THEN h[i] ELSE IV[i - 8]])
         v1 == [v0 EXCEPT ![13] = BitXor(v0[13], LowBits(tt, 32)),
                          ![14] = BitXor(v0[14], Shr(tt, 32)),
                          ![15] = IF last THEN NotW(v0[15], 32) ELSE v0[15]]
         v  == RoundsF(v1, m, 0)
     IN Tup([i \in 1..8 |-> BitXor(BitXor(h[i], v[i]), v[i + 8])])
+
+F(h, block, t, last) == FX(h, block, FromInt(t), last)
 
 PadBlock(b) == Tup(b \o [i \in 1..(64 - Len(b)) |-> 0])
 
@@ -62,6 +63,28 @@ RECURSIVE Blocks(_, _, _)
 Blocks(h, data, t) ==
     IF Len(data) <= 64 THEN F(h, PadBlock(data), t + Len(data), TRUE)
     ELSE Blocks(F(h, SubSeq(data, 1, 64), t + 64, FALSE), SubSeq(data, 65, Len(data)), t + 64)
+
+\* The same with counter advances (verification hook verif_skip_blocks): skips is a sequence of <<pos, extra>>, meaning
+\* that after pos > 0 bytes of data (key block included) had been absorbed the counter was advanced by extra (a BigNat).
+\* A block is compressed when data beyond it arrives (or at finalization), so the block that ends at byte e sees every
+\* advance made at a position <= e.
+RECURSIVE ExtraAt(_, _, _)
+ExtraAt(skips, e, i) == IF i > Len(skips) THEN Zero
+                        ELSE Add(IF skips[i][1] <= e THEN skips[i][2] ELSE Zero, ExtraAt(skips, e, i + 1))
+CtrAt(skips, e) == LowBits(Add(FromInt(e), ExtraAt(skips, e, 1)), 64)
+RECURSIVE BlocksX(_, _, _, _)
+BlocksX(h, data, t, skips) ==
+    IF Len(data) <= 64 THEN FX(h, PadBlock(data), CtrAt(skips, t + Len(data)), TRUE)
+    ELSE BlocksX(FX(h, SubSeq(data, 1, 64), CtrAt(skips, t + 64), FALSE), SubSeq(data, 65, Len(data)), t + 64, skips)
+
+Blake2sX(msg, key, outlen, skips) ==
+    LET p0 == FromInt(outlen + 256 * Len(key) + 65536 + 16777216)
+        h0 == Tup([i \in 1..8 |-> IF i = 1 THEN BitXor(IV[1], p0) ELSE IV[i]])
+        data == IF Len(key) > 0 THEN PadBlock(key) \o msg ELSE msg
+        h  == BlocksX(h0, data, 0, skips)
+        RECURSIVE Cat(_)
+        Cat(i) == IF i > 8 THEN <<>> ELSE ToBytesLE(h[i], 4) \o Cat(i + 1)
+    IN SubSeq(Cat(1), 1, outlen)
 
 Blake2s(msg, key, outlen) ==
     LET p0 == FromInt(outlen + 256 * Len(key) + 65536 + 16777216)   \* 0x0101kknn
